@@ -49,12 +49,9 @@ def kMergeTake (lt : Int → Int → Bool) (runs : List (List Elem)) (len : Nat)
 def upperBound (lt : Int → Int → Bool) (run : List Elem) (v : Int) : Nat :=
   (run.takeWhile (fun x => !lt v x.key)).length
 
-def insertKey (lt : Int → Int → Bool) (x : Int) : List Int → List Int
-  | [] => [x]
-  | y :: ys => if lt y x then y :: insertKey lt x ys else x :: y :: ys
-
-/-- `std::(stable_)sort(samples, comp)`: only the key sequence matters for `upper_bound` -/
-def sortKeys (lt : Int → Int → Bool) (l : List Int) : List Int := l.foldr (insertKey lt) []
+/-- `std::(stable_)sort(samples, comp)`: only the key sequence matters for `upper_bound`
+(merge sort: up to 64·64·k samples are sorted per call) -/
+def sortKeys (lt : Int → Int → Bool) (l : List Int) : List Int := l.mergeSort (fun a b => !lt b a)
 
 /-- a chunk: `[first, second)` as offsets into one (non-empty) input sequence -/
 structure Chunk where
